@@ -437,6 +437,9 @@ def whole_function_table(ck):
 def run(ck):
     deduction_obligations(ck)
     whole_function_table(ck)
+    # what is accounted for is *every* warning of the run: the tally is taken after the last step that can still log (shared with C07)
+    from .c07 import cli_gate
+    cli_gate(ck)
     # the -maxwarn parser
     cli = ck.index.mod(CLI)
     mw = cli.func('maxwarn')
